@@ -62,7 +62,17 @@ def unrelated(kind, k, a, b, n, s):
         return subject((k + 1) % 3, a, b)
     if kind == 5:
         return subject((k + 2) % 3, a, b)
-    return [a, b]
+    if kind == 6:
+        return [a, b]
+    if kind == 7:
+        # an unrelated object that merely carries the same attribute names (duck typing must not make it equal)
+        import types as _t
+
+        x = subject(k, a, b)
+        return [_t.SimpleNamespace(line=a, character=b), _t.SimpleNamespace(start=x.start if k == 1 else None, end=x.end if k == 1 else None), _t.SimpleNamespace(uri="u", range=x.range if k == 2 else None)][k]
+    # another protocol class with overlapping attribute names
+    r = R(a, b, a, b)
+    return [L.Range(P(a, b), P(a, b)), L.LocationLink(target_uri="u", target_range=r, target_selection_range=r), L.CallHierarchyItem(name="n", kind=L.SymbolKind.File, uri="u", range=r, selection_range=r)][k]
 
 
 def unrelated_ok(k, kind, a, b, n, s):
